@@ -140,6 +140,10 @@ func run(seed int64, n int, dir string, _ []string) {
 	vanishing(o, bin, scratch)
 	usageErrors(o, bin, scratch, mk)
 	endingPlacement(o, bin, scratch, mk)
+	commitPaths(o, scratch)
+	idempotent(o, bin, scratch)
+	interruptedCommit(o, hc.NewGen(seed+104729), bin, scratch)
+	startUp(o, hc.NewGen(seed+7919), bin, scratch)
 
 	preload := func(p prog, d string) {
 		if strings.HasPrefix(p.kind, "preload-") {
